@@ -31,16 +31,18 @@ Idents(s) == IF s = <<>> THEN {}
              ELSE IF Head(s)[1] \in {"trunc", "cut"} THEN {}
              ELSE (IF Head(s)[1] = "push" THEN {Ident(Head(s)[2])} ELSE {}) \cup Idents(Tail(s))
 
-Ops == {"SubRawA", "SubHashA", "UnsubRawA", "UnsubHashA", "SubRawB", "UnsubHashB"}
+Ops == {"SubRawA", "SubHashA", "UnsubRawA", "UnsubHashA", "SubRawB", "UnsubHashB",
+        "SubAB", "UnsubAB", "UnsubBA"}         \* one call with two values (A and B), in that order
 Words == UNION {[1..k -> Ops] : k \in 0..MaxWord}
-Target(op) == IF op \in {"SubRawA", "SubHashA", "UnsubRawA", "UnsubHashA"} THEN "HA" ELSE "HB"
-IsSub(op) == op \in {"SubRawA", "SubHashA", "SubRawB"}
+Targets(op) == IF op \in {"SubRawA", "SubHashA", "UnsubRawA", "UnsubHashA"} THEN {"HA"}
+               ELSE IF op \in {"SubRawB", "UnsubHashB"} THEN {"HB"} ELSE {"HA", "HB"}
+IsSub(op) == op \in {"SubRawA", "SubHashA", "SubRawB", "SubAB"}
 RECURSIVE BagAfter(_, _)
-BagAfter(w, bag) ==       \* bag : [{"HA","HB"} -> Nat]
+BagAfter(w, bag) ==       \* bag : [{"HA","HB"} -> Nat] ; a call adds / removes one occurrence of each of its values
   IF w = <<>> THEN bag
-  ELSE LET h == Target(Head(w)) IN
-       BagAfter(Tail(w), IF IsSub(Head(w)) THEN [bag EXCEPT ![h] = @ + 1]
-                         ELSE [bag EXCEPT ![h] = IF @ > 0 THEN @ - 1 ELSE 0])
+  ELSE BagAfter(Tail(w), [h \in {"HA", "HB"} |->
+                           IF h \notin Targets(Head(w)) THEN bag[h]
+                           ELSE IF IsSub(Head(w)) THEN bag[h] + 1 ELSE (IF bag[h] > 0 THEN bag[h] - 1 ELSE 0)])
 Subs(w) == {h \in {"HA", "HB"} : BagAfter(w, [x \in {"HA", "HB"} |-> 0])[h] > 0}
 
 Actions == {"none", "CF", "IC", "other"}
